@@ -326,14 +326,14 @@ check("C28", "internal/telemetry",
 
 check("C32", "internal/zzverif/c32",
       rule="digest stratum: random work items (0..16 import specs, 0..16 extrinsic specs with lengths from {0,1,255,256,65535,65536,65537,2^20} and random < 2^20, export counts from {0,1,2,63,64,255,256,3072,65535} and random <= 3072, payloads of 0..500 bytes) x refinement outcomes (ok with output, each error kind) x gas: work_package.C must carry service, code hash, H(payload), accumulate gas and the result, "
-           "and the refine load must be (gas, |imports|, |extrinsics|, sum of extrinsic lengths, export count); spec stratum: work_package.A on bundles of 1..10000 bytes and 0..20 export segments (63..66 in every 40th thorough case; a quarter of the segments all-zero): hash, bundle length, export count as given, exports root == M(exports) from the independent Merkle model, same result twice; "
+           "and the refine load must be (gas, |imports|, |extrinsics|, sum of extrinsic lengths, export count); spec stratum: work_package.A on bundles of 1..10000 bytes and 0..20 export segments (every fourth case 63..200, i.e. two to four pages of paged proofs with a full, a short or a one-entry last page; a quarter of the segments all-zero): hash, bundle length, export count as given, exports root == M(exports) from the independent Merkle model, erasure root == M_B([H(bundle chunk c) ‖ M_B(chunks c of the segments followed by their paged proofs)]) from a model of GP 14.10 / 14.16 that shares only the Reed-Solomon encoder with the code, same result twice; "
            "report stratum: work_package.WorkReportCompute on packages of 1..4 items with a scripted executor (refinement outcomes ok / panic / out-of-gas, outputs of 0..W_R+1 bytes chosen so that the running total crosses W_R inside the package, export lists one too long or too short in a fifth of the items) compared with a model of GP 14.11 (oversize / bad exports / error / ok, only successful outputs count against later items, failed items export zero segments), then the digests, export count and exports root of the report. "
            "distinct_nontrivial = distinct (imports, extrinsics, size sum, export count) tuples where the counts differ from each other + distinct specs",
       technique="reference-model monitor (direct model of GP 14.8 / 14.16, exports root from the independent well-balanced-tree model) over generated work items and bundles",
       level_text="Every field of the digest and of the package specification is compared with a direct model on generated inputs; held = no divergence on what was explored.",
-      note="The erasure root is produced by the repository's own cgo wrapper and lib.rs over the stand-in Reed-Solomon crate (standin/rs-simd); it is not compared with anything (only: no error, no panic, deterministic).",
+      note="The chunks under the erasure root come from the repository's own cgo wrapper and lib.rs over the stand-in Reed-Solomon crate (standin/rs-simd) in the code and in the model alike (the encoder is C30's business); paged proofs, transposition and both Merkle functions are modelled independently.",
       shards=(8, 16), needs_rs=True, env={"JAM_FUZZ": "1"},
-      floors={"any": {"digests": 20000, "digests_with_extrinsic_size_over_16_bits": 5000, "specs": 150, "specs_without_exports": 20, "reports": 250, "report_items_ok": 150, "report_items_oversize": 30, "report_items_bad_exports": 30}},
+      floors={"any": {"digests": 20000, "digests_with_extrinsic_size_over_16_bits": 5000, "specs": 150, "specs_without_exports": 20, "erasure_roots_compared": 150, "erasure_roots_compared_with_several_proof_pages": 15, "reports": 250, "report_items_ok": 150, "report_items_oversize": 30, "report_items_bad_exports": 30}},
       assumptions=[STANDIN_VRF, "third-party crate reed-solomon-simd replaced by a stand-in MDS code (standin/rs-simd); only the repository's own shard layout and bookkeeping run"])
 
 check("C30", "internal/zzverif/c30",
@@ -350,13 +350,13 @@ check("C30", "internal/zzverif/c30",
       assumptions=[STANDIN_VRF, "third-party crate reed-solomon-simd replaced by a stand-in MDS code (standin/rs-simd)"])
 
 check("C22", "internal/accumulation",
-      rule="case = one accumulation round: 2..4 sender services and 1..2 receiver services with purpose-built PVM code (a sender emits 5..20 transfers with memo = (marker, sender tag, counter), three quarters of them to the first receiver; a receiver fetches the whole input sequence and writes it under one storage key, so the delivery order becomes state), W* with one work result per sender; "
+      rule="case = one accumulation round: 2..4 sender services and 1..2 receiver services with purpose-built PVM code (a sender emits 5..20 transfers with memo = (marker, sender tag, counter), three quarters of them to the first receiver; a receiver fetches the whole input sequence and writes it under one storage key, so the delivery order becomes state; service identifiers are small in a third of the rounds, random 32-bit values in a third, and in a third from the values that conversions through rune / int32 / uint16 would fold together: 0xD800.., 0x110000.., around 2^31, near 2^32, equal low halves; in half of the rounds the senders count down 3000 or 30000 iterations first so that their accumulations overlap in time), W* with one work result per sender; "
            "accumulation.DeferredTransfers() is executed 12..24 times from identical deep copies of the prior state with types.MaxWorkers cycling through {1,2,32} and GOMAXPROCS through {16,1,2} (every execution draws fresh map-iteration orders), and a canonical projection of everything left behind (every account with storage, preimages and lookups; privileges; authorisation queues; next validators; accumulation outputs; gas statistics; accumulated history; ready queue; raw key-values as a set) must be equal across executions. distinct_nontrivial = distinct scenarios",
       technique="run-vs-run equality monitor (the same round replayed under different worker limits, GOMAXPROCS and map-iteration draws), order made observable by recording services; Go race detector",
       level_text="Each generated round is executed 12..24 times under different scheduling parameters and the complete posterior projections are compared; the race detector watches the fan-out. Held = all executions of every round identical and no race report.",
       note="In-package harness (drives the blockchain singleton like jamtests/accumulate; W* is set directly, the queue equations are C21's subject). Only determinism is judged, not whether the delivery order is the Gray Paper's.",
       shards=(8, 16), race=True, env={"JAM_FUZZ": "1"}, timeout=(1200, 7200),
-      floors={"any": {"rounds": 100, "repeated_runs_compared": 1200, "rounds_with_more_than_a_dozen_transfers_to_one_receiver": 60, "transfers_recorded_by_receivers": 2000}},
+      floors={"any": {"rounds": 100, "repeated_runs_compared": 1200, "rounds_with_more_than_a_dozen_transfers_to_one_receiver": 60, "transfers_recorded_by_receivers": 2000, "rounds_with_boundary_service_ids": 20, "rounds_with_random_32_bit_service_ids": 20, "rounds_with_long_running_senders": 30}},
       assumptions=[STANDIN_VRF])
 
 check("C23", "internal/zzverif/c23",
